@@ -920,7 +920,24 @@ func c14Summary(c *Ctx, p *Prog) {
 			}
 		}
 	})
-	c.Check(len(warnTexts) == 3, R, "summary:warnings", site, fmt.Sprintf("three documented warnings: %q", warnTexts), fmt.Sprintf("the column summary raises %d kinds of warning, documented are: benchmark set differs; summaries must be >0; ratios must be >0", len(warnTexts)))
+	// three situations raise a warning (benchmark set differs; summaries must be >0; ratios must be >0): three places
+	// append to the summary's warnings — where the text is made (here, or in a helper that returns it) is free
+	nWarn := 0
+	eachInstr(fn, func(_ *ssa.BasicBlock, in ssa.Instruction) {
+		st, ok := in.(*ssa.Store)
+		if !ok {
+			return
+		}
+		if f, _ := fieldOfAddr(st.Addr); f == nil || f.Name() != "Warnings" {
+			return
+		}
+		if call, ok := st.Val.(*ssa.Call); ok {
+			if bi, ok := call.Call.Value.(*ssa.Builtin); ok && bi.Name() == "append" {
+				nWarn++
+			}
+		}
+	})
+	c.Check(nWarn == 3, R, "summary:warnings", site, fmt.Sprintf("three places raise a warning (texts made here: %q)", warnTexts), fmt.Sprintf("the column summary raises a warning in %d places, documented are three: benchmark set differs; summaries must be >0; ratios must be >0", nWarn))
 	// the differing-set warning compares nBase with the number of ratios under !isBase
 	okSet := false
 	eachInstr(fn, func(b *ssa.BasicBlock, in ssa.Instruction) {
